@@ -426,3 +426,23 @@ Example C05_caltrack_nonvacuous :
   map (@co_unc Z Z) (caltrack_predict ex_pred ex_unc (ex_crows (Some 5%Z))) <>
   map (@co_unc Z Z) (caltrack_predict ex_pred ex_unc (ex_crows None)).
 Proof. repeat split; try (vm_compute; reflexivity). vm_compute. discriminate. Qed.
+
+(* the clock from_series labels the rows on: with the repair it never depends on whether a meter series is supplied; as coded
+   it does not when the feed is in UTC or on the meter's clock (the exact guard), and does otherwise (finding C05-K7) *)
+Theorem C05_caltrack_index_zone_ni : forall m m' w, index_zone WeatherClock m w = index_zone WeatherClock m' w.
+Proof. reflexivity. Qed.
+Print Assumptions C05_caltrack_index_zone_ni.
+
+Theorem C05_caltrack_index_zone_partial : forall mz w, (w = 0 \/ w = mz)%Z ->
+  index_zone UnionToUtc (Some mz) w = index_zone UnionToUtc None w.
+Proof.
+  intros mz w [->| ->]; cbn [index_zone].
+  - destruct (mz =? 0)%Z eqn:E; [apply Z.eqb_eq in E; exact E | reflexivity].
+  - rewrite Z.eqb_refl. reflexivity.
+Qed.
+Print Assumptions C05_caltrack_index_zone_partial.
+
+Theorem C05_caltrack_index_zone_refuted : exists mz w,
+  index_zone UnionToUtc (Some mz) w <> index_zone UnionToUtc None w.
+Proof. exists 1%Z, 2%Z. vm_compute. discriminate. Qed.
+Print Assumptions C05_caltrack_index_zone_refuted.
